@@ -97,6 +97,15 @@ inductive Node (α : Type)
 
 abbrev Mapping (α : Type) := List (Node α)
 
+/-- A concrete mapping (natural tile shapes) seen as a mapping over the rationals. -/
+def castNode : Node Nat → Node Rat
+  | .storage l ts lo => .storage l ts lo
+  | .toll l ts lo => .toll l ts lo
+  | .loop rv tile => .loop rv (tile : Rat)
+  | .compute => .compute
+
+def castMapping (m : Mapping Nat) : Mapping Rat := m.map castNode
+
 /-- Mapping node after `insert_reservation_nodes`. -/
 inductive RNode (α : Type)
   | node (n : Node α)
@@ -335,35 +344,36 @@ def holderCounts (lv : Level α) (t : TId) (ts : TensorSpec α) (isTollNode : Bo
   let val (f : Counts α → α) : α := match child with
     | some ch => if inherit then f ch else fills
     | none => fills
+  -- (the sequence of `+=` statements of the code, one `let` per updated field, in the order of the code)
   -- totals exchanged with the parent
-  let stats := if hasParent && (!isBacking && belowBacking) then
-      { stats with readsToParent := val (·.readsToParent) + stats.readsToParent } else stats
-  let stats := if hasParent && (isOut || !belowBacking) then
-      { stats with writesToParent := val (·.writesToParent) + stats.writesToParent } else stats
-  let stats := if hasParent && (isOut && !isBacking && belowBacking && skipInitial) then
-      { stats with skippedFirst := val (·.skippedFirst) + stats.skippedFirst } else stats
+  let reads := if hasParent && (!isBacking && belowBacking) then
+      val (·.readsToParent) + stats.readsToParent else stats.readsToParent
+  let writes := if hasParent && (isOut || !belowBacking) then
+      val (·.writesToParent) + stats.writesToParent else stats.writesToParent
+  let skipped := if hasParent && (isOut && !isBacking && belowBacking && skipInitial) then
+      val (·.skippedFirst) + stats.skippedFirst else stats.skippedFirst
   -- conversion to actions
   let readScale : α := 1 / valuesPerAction lv lv.read t ts.bpv
   let writeScale : α := if countWrites then 1 / valuesPerAction lv lv.write t ts.bpv else 0
   -- parent → me
-  let stats := if countDown then
-      { stats with
-        writeActions := stats.writeActions + stats.readsToParent * writeScale
-        skWriteActions := stats.skWriteActions + stats.skippedFirst * writeScale } else stats
+  let writeActions1 := if countDown then stats.writeActions + reads * writeScale else stats.writeActions
+  let skWriteActions1 := if countDown then stats.skWriteActions + skipped * writeScale else stats.skWriteActions
   -- me → parent
-  let stats := if countUp then
-      { stats with readActions := stats.readActions + stats.writesToParent * readScale } else stats
-  -- exchanges with the child
-  match child with
-  | none => stats
-  | some ch =>
-    let stats := if countDown then
-        let stats := { stats with readActions := stats.readActions + ch.readsToParent * readScale }
-        if skipInitial then
-          { stats with skReadActions := stats.skReadActions + ch.skippedFirst * readScale } else stats
-      else stats
-    if countUp then
-      { stats with writeActions := stats.writeActions + ch.writesToParent * writeScale } else stats
+  let readActions1 := if countUp then stats.readActions + writes * readScale else stats.readActions
+  -- exchanges with the child: me → child (reads, skipped first reads), child → me (writes)
+  let readActions2 := match child with
+    | some ch => if countDown then readActions1 + ch.readsToParent * readScale else readActions1
+    | none => readActions1
+  let skReadActions1 := match child with
+    | some ch => if countDown && skipInitial then stats.skReadActions + ch.skippedFirst * readScale
+                 else stats.skReadActions
+    | none => stats.skReadActions
+  let writeActions2 := match child with
+    | some ch => if countUp then writeActions1 + ch.writesToParent * writeScale else writeActions1
+    | none => writeActions1
+  { readsToParent := reads, writesToParent := writes, skippedFirst := skipped,
+    readActions := readActions2, writeActions := writeActions2,
+    skReadActions := skReadActions1, skWriteActions := skWriteActions1 }
 
 /-- `analyze_storage` on the whole record; `analyze_toll` afterwards sets `max_occupancy = 0`. -/
 def holderStats (lv : Level α) (t : TId) (ts : TensorSpec α) (isTollNode : Bool) (hasParent : Bool) (shape : List α)
@@ -576,8 +586,8 @@ Mirrors what the real code rejects or what lies outside the modelled fragment:
 * every loop has a tile shape ≥ 1 dividing the current shape of its rank variable (perfect factorisation),
   and at the Compute every rank variable has shape 1 (`_assert_valid_pmapping`);
 * every holder node refers to an existing component of the matching kind (Storage ↔ Memory, Toll ↔ Toll), holds a
-  non-empty duplicate-free list of existing tensors; no (component, tensor) pair occurs twice
-  (`assert buffet not in child_result.buffet_stats`);
+  non-empty duplicate-free list of existing tensors and has `_lower = True` (the default; what `evaluate_mapping` builds
+  from YAML); no (component, tensor) pair occurs twice (`assert buffet not in child_result.buffet_stats`);
 * every tensor is held somewhere, and its first (backing) holder is a Memory;
 * every tensor's rank variables exist and are pairwise different (one rank variable per rank);
 * bounds ≥ 1. -/
@@ -601,10 +611,10 @@ def nodupB {β} [DecidableEq β] : List β → Bool
   | x :: r => !r.contains x && nodupB r
 
 def wfNode (arch : Arch Rat) (ntens : Nat) : Node Nat → Bool
-  | .storage l ts _ =>
-    (match arch.levels[l]? with | some lv => !lv.isToll | none => false) && !ts.isEmpty && ts.all (· < ntens) && nodupB ts
-  | .toll l ts _ =>
-    (match arch.levels[l]? with | some lv => lv.isToll | none => false) && !ts.isEmpty && ts.all (· < ntens) && nodupB ts
+  | .storage l ts lo =>
+    (match arch.levels[l]? with | some lv => !lv.isToll | none => false) && !ts.isEmpty && ts.all (· < ntens) && nodupB ts && lo
+  | .toll l ts lo =>
+    (match arch.levels[l]? with | some lv => lv.isToll | none => false) && !ts.isEmpty && ts.all (· < ntens) && nodupB ts && lo
   | _ => true
 
 /-- Is the first holder of `t` a Storage (Memory) node? `false` if `t` is never held. -/
